@@ -1,7 +1,7 @@
 """All contracts, by name."""
-from . import symbolic_nodes
+from . import symbolic_nodes, negation
 
-MODULES = [symbolic_nodes]
+MODULES = [symbolic_nodes, negation]
 
 
 def all_contracts():
